@@ -511,6 +511,7 @@ pub struct Stats {
     pub longest: Option<Vec<Step>>,
     pub distinct_dispatch_logs: u64,
     pub key_checks: u64,
+    pub key_warnings: Vec<String>,
 }
 
 pub trait Spec: Sync {
@@ -665,10 +666,14 @@ pub fn bfs_opt(spec: &dyn Spec, threads: usize, seed: u64, wall_cap: Duration, k
                 if keycheck_every > 0 && !o.nested {
                     if let Some(h1) = first_history.get(&o.snap.key) {
                         duplicates += 1;
-                        if duplicates % keycheck_every == 0 && *h1 != o.history && machinery.is_empty() {
+                        if duplicates % keycheck_every == 0 && *h1 != o.history && stats.key_warnings.is_empty() {
                             stats.key_checks += 1;
                             if let Some(d) = key_differential(&cfg, &b, h1, &o.history, &o.snap.enabled) {
-                                machinery.push(format!("state key is too coarse: {d}"));
+                                // reported by the caller: a machinery error unless violations were found as well
+                                // (on a broken tree the verdict matters more than the quality of the key)
+                                if stats.key_warnings.len() < 3 {
+                                    stats.key_warnings.push(format!("state key is too coarse: {d}"));
+                                }
                             }
                         }
                     } else {
